@@ -84,6 +84,7 @@ type VC struct {
 	nfresh    int
 	heapInfo  map[string]*HeapInfo // all heaps known (grows across passes)
 	newHeaps  bool
+	letPending int // uses of let names whose sort was not yet known in this pass
 	warnings  []string
 	trusted   map[string]bool // extern / iface / opaque contracts used
 	assumes   map[string]bool // assumptions used
@@ -418,7 +419,7 @@ func (vc *VC) havocAllHeaps(st *State) {
 }
 
 // chanGhostNames are the ghost maps govc maintains at channel operations.
-var chanGhostNames = []string{"chsends", "chrecvs", "chcloses", "chlast", "chlastrecv"}
+var chanGhostNames = []string{"chsends", "chrecvs", "chrecvsclosed", "chcloses", "chlast", "chlastrecv"}
 
 func isChanGhostHeap(h string) bool {
 	for _, g := range chanGhostNames {
